@@ -100,10 +100,10 @@ PROPS["C01"] = dict(
     level="exploration",
     engine="E1",
     parts=[dict(bin="e1_rank_sel", opts={"prop": "C01"}),
-           dict(bin="e1_huge", opts={"prop": "C01"}, shards=4, tag="huge")],
+           dict(bin="e1_huge", opts={"prop": "C01"}, shards=12, tag="huge")],
     rule=RS_RULE,
     alphabet="Rank9; RankSmall<2,9|1,9|1,10|1,11|3,13>; each under Select9, SelectAdapt, SelectZeroAdapt, SelectAdaptConst, SelectZeroAdaptConst, SelectSmall, SelectZeroSmall in both nesting orders (25 rank-capable stacks)",
-    bound={"quick": "L=600, K=1 over 26 lengths, K=2 over 10 lengths x 7 kinds; all p in 0..=len+2 and usize::MAX (boundary set beyond 2200 bits); four sparse vectors longer than 2^32 bits (upper counters of RankSmall, positions beyond 32 bits) and three all-ones vectors of 2^32+1/+192/+200 bits (2^32 ones: counter widths), before and after clearing bits 5 and 2^32-1, probed at the boundary positions", "thorough": "L=1100, K<=2 over 26 lengths x 7 kinds, K=3 over 9 lengths"},
+    bound={"quick": "L=600, K=1 over 26 lengths, K=2 over 10 lengths x 7 kinds; all p in 0..=len+2 and usize::MAX (boundary set beyond 2200 bits); four sparse vectors longer than 2^32 bits (upper counters of RankSmall, positions beyond 32 bits) and three all-ones vectors of 2^32+1/+192/+200 bits (2^32 ones: counter widths), before and after clearing bits 5 and 2^32-1, probed at the boundary positions; the closed-form dense vectors of C02 under all six rank structures", "thorough": "L=1100, K<=2 over 26 lengths x 7 kinds, K=3 over 9 lengths"},
     oracle="prefix-popcount table of the Vec<bool> model: rank(p) = ones among first min(p,len) bits, rank_zero(p) = p - rank(p) for p <= len, num_ones/num_zeros/count_ones/count_zeros/len and Index equal the model",
     assumptions=STRICT + ["bit vectors with garbage supplied through unsafe from_raw_parts are outside C01/C02 (the property names stale bits left by pop/truncation)"],
 )
@@ -113,10 +113,10 @@ PROPS["C02"] = dict(
     level="exploration",
     engine="E1",
     parts=[dict(bin="e1_rank_sel", opts={"prop": "C02"}),
-           dict(bin="e1_huge", opts={"prop": "C02"}, shards=4, tag="huge")],
+           dict(bin="e1_huge", opts={"prop": "C02"}, shards=12, tag="huge")],
     rule=RS_RULE,
     alphabet="Select9; SelectAdapt/SelectZeroAdapt::{new(m), with_span(L,m), with_inv(k,m)} k in {0,1,3,5,12} (thorough 0,1,2,3,4,5,9,12), m in {0,1,3} (thorough 0..3), L in {1,64,8192}; Select(Zero)AdaptConst<K,M> for (0,0) (1,0) (2,1) (4,2) (12,3) (13,0); Select(Zero)Small x5 with_inv(b) b in {1,2,8,100}; both nesting orders; bases AddNumBits<BitVec>, Rank9, RankSmall",
-    bound={"quick": "same vectors as C01 quick; all r in 0..=count+1 and usize::MAX (boundary set beyond 2200); four vectors longer than 2^32 bits with ones more than 2^32 apart (64-bit span encoding) and select_zero across the 2^32 boundary; the three all-ones vectors of C01 under four selectors (ranks around 2^32, an upper block without inventory entry)", "thorough": "same vectors as C01 thorough"},
+    bound={"quick": "same vectors as C01 quick; all r in 0..=count+1 and usize::MAX (boundary set beyond 2200); four vectors longer than 2^32 bits with ones more than 2^32 apart (64-bit span encoding) and select_zero across the 2^32 boundary; the three all-ones vectors of C01 under four selectors (ranks around 2^32, an upper block without inventory entry); six (thorough nine) dense vectors of 2^32+k (thorough 2^33+k) bits described by word-periodic segments (zeros / ones / alternating / one per word) with closed-form rank and select as the model - empty first or middle upper block, full first upper block, runs across the 2^32 boundary - under 8 selector stacks, probed around every segment boundary and every multiple of 2^32", "thorough": "same vectors as C01 thorough"},
     oracle="ones/zeros position lists of the Vec<bool> model: select(r) = Some(position of the r-th one) iff r < m, select_zero likewise; rank(select(r)) = r on stacks that offer both",
     assumptions=STRICT + ["the 64-bit span encoding (ones more than 2^32 bits apart) is exercised by four hand-picked vectors only (counters inventory_entries_*_span and spill_words, read through a cfg(sux_verif) accessor, report how many entries of each encoding the built structures contain)"],
 )
